@@ -116,6 +116,68 @@ def idle_contract(c):
 
 
 # ------------------------------------------------------------------------------------------------ link timers
+def timer_clauses(c, freq, enable, tx, rx, keepalive, recovery, ka_t, rec_t, reach, deep):
+    """Clauses (2) and (3) for one LinkMaintenanceTimers instance at ss clock `freq`.  enable / tx / rx are the events "in U0", "a
+    link command is sent", "a link command or header packet is received" and keepalive / recovery the two requests, as z3 Bools
+    (ports of the stand-alone unit, or the corresponding signals of the parent for the instance inside USB3LinkLayer);
+    ka_t / rec_t: the unit's two counters.  reach: the keepalive covers are reached by BMC; deep: the recovery cover too;
+    reach=None: covers only as satisfiability with the invariant."""
+    # From the statement / the documented intervals, in cycles of this clock (not taken from the elaborated netlist)
+    K = int(round(10e-6 * freq))          # keepalive interval
+    N = int(round(1e-3 * freq))           # 1 ms
+    TEN_MS = int(round(10e-3 * freq))
+
+    def quiet_ghost(name, event, timer, limit):
+        tw = timer.size()
+        w = max(tw, limit.bit_length()) + 1
+        g = c.ghost(name, w)
+        c.set_next(g, z3.If(z3.Or(event, z3.Not(enable)), bvc(0, w), sat_inc(g, w)))
+        sat = (1 << w) - 1
+        c.inv(f"{name}_timer_is_quiet_time", z3.Implies(g != sat, timer == z3.Extract(tw - 1, 0, g)))
+        return g, w
+
+    quiet_tx, wt = quiet_ghost("quiet_tx", tx, ka_t, K)
+    quiet_rx, wr = quiet_ghost("quiet_rx", rx, rec_t, N)
+
+    # --- keepalive
+    c.ensure("keepalive_at_interval", z3.Implies(quiet_tx == K - 1, keepalive),
+             clause="In U0 a keepalive is scheduled whenever no link command has been sent for the keepalive interval")
+    c.ensure("keepalive_not_before_interval", z3.Implies(keepalive, z3.UGE(quiet_tx, K - 1)),
+             clause="... whenever no link command has been sent for the keepalive interval [and only then]")
+    # "(never later than 10 ms)": consecutive U0 cycles with neither a sent link command nor a keepalive strobe
+    tw = ka_t.size()
+    gw = max(tw, TEN_MS.bit_length()) + 1
+    gap = c.ghost("ka_gap", gw)
+    c.set_next(gap, z3.If(z3.Or(tx, z3.Not(enable), keepalive), bvc(0, gw), sat_inc(gap, gw)))
+    fired = c.ghost("ka_fired", 1)       # a keepalive strobe happened since the last sent link command / U0 entry
+    c.set_next(fired, z3.And(z3.Not(tx), enable, z3.Or(B(fired), keepalive)))
+    c.inv("ka_gap_before_first_strobe",
+          z3.Implies(z3.Not(B(fired)), z3.And(gap == zx(ka_t, gw), z3.ULE(zx(ka_t, gw), K - 1))))
+    c.inv("ka_gap_after_strobe", z3.Implies(B(fired), gap == zx(ka_t - bvc(K % (1 << tw), tw), gw)))
+    c.ensure("keepalive_never_later_than_10ms", z3.ULT(gap, TEN_MS),
+             clause="(never later than 10 ms)")
+
+    # --- recovery
+    c.ensure("recovery_at_1ms", z3.Implies(quiet_rx == N - 1, recovery),
+             clause="recovery is requested within one cycle of 1 ms without any received link command or header packet")
+    c.ensure("recovery_never_earlier", z3.Implies(recovery, z3.UGE(quiet_rx, N - 1)),
+             clause="and never earlier")
+
+    # --- vacuity
+    if reach is None:
+        c.cover("keepalive", keepalive, reach=False)
+        c.cover("recovery", z3.And(recovery, quiet_rx == N - 1), reach=False)
+        return
+    c.cover("keepalive", keepalive, reach=reach or K <= 100)
+    c.cover("keepalive_repeats", z3.And(keepalive, B(fired)), reach=reach)
+    c.cover("recovery", z3.And(recovery, quiet_rx == N - 1), reach=deep)
+    c.cover("rx_event_restarts", z3.And(rx, enable, z3.UGT(quiet_rx, 2)))
+    c.cover("tx_event_restarts", z3.And(tx, enable, z3.UGT(quiet_tx, 2)))
+    if deep:
+        c.cover_depth = N + 8
+        c.timeout_s = 900
+
+
 def timers_contract(freq, reach, deep=False):
     """reach: the keepalive covers are reached by BMC; deep: the (N-cycle deep) recovery cover too."""
     def contract(c):
@@ -128,59 +190,46 @@ def timers_contract(freq, reach, deep=False):
         tx = B(I["i_lc_tx"])
         rx = z3.Or(B(I["i_lc_rx"]), B(I["i_pkt_rx"]))
         keepalive, recovery = B(O["o_keepalive"]), B(O["o_recovery"])
+        timer_clauses(c, freq, enable, tx, rx, keepalive, recovery, ts.sig("keepalive_timer"), ts.sig("recovery_timer"), reach, deep)
+    return contract
 
-        # From the statement / the documented intervals, in cycles of this clock (not taken from the elaborated netlist)
-        K = int(round(10e-6 * freq))          # keepalive interval
-        N = int(round(1e-3 * freq))           # 1 ms
-        TEN_MS = int(round(10e-3 * freq))
 
-        ka_t, rec_t = ts.sig("keepalive_timer"), ts.sig("recovery_timer")
-
-        def quiet_ghost(name, event, timer, limit):
-            tw = timer.size()
-            w = max(tw, limit.bit_length()) + 1
-            g = c.ghost(name, w)
-            c.set_next(g, z3.If(z3.Or(event, z3.Not(enable)), bvc(0, w), sat_inc(g, w)))
-            sat = (1 << w) - 1
-            c.inv(f"{name}_timer_is_quiet_time", z3.Implies(g != sat, timer == z3.Extract(tw - 1, 0, g)))
-            return g, w
-
-        quiet_tx, wt = quiet_ghost("quiet_tx", tx, ka_t, K)
-        quiet_rx, wr = quiet_ghost("quiet_rx", rx, rec_t, N)
-
-        # --- keepalive
-        c.ensure("keepalive_at_interval", z3.Implies(quiet_tx == K - 1, keepalive),
-                 clause="In U0 a keepalive is scheduled whenever no link command has been sent for the keepalive interval")
-        c.ensure("keepalive_not_before_interval", z3.Implies(keepalive, z3.UGE(quiet_tx, K - 1)),
-                 clause="... whenever no link command has been sent for the keepalive interval [and only then]")
-        # "(never later than 10 ms)": consecutive U0 cycles with neither a sent link command nor a keepalive strobe
-        tw = ka_t.size()
-        gw = max(tw, TEN_MS.bit_length()) + 1
-        gap = c.ghost("ka_gap", gw)
-        c.set_next(gap, z3.If(z3.Or(tx, z3.Not(enable), keepalive), bvc(0, gw), sat_inc(gap, gw)))
-        fired = c.ghost("ka_fired", 1)       # a keepalive strobe happened since the last sent link command / U0 entry
-        c.set_next(fired, z3.And(z3.Not(tx), enable, z3.Or(B(fired), keepalive)))
-        c.inv("ka_gap_before_first_strobe",
-              z3.Implies(z3.Not(B(fired)), z3.And(gap == zx(ka_t, gw), z3.ULE(zx(ka_t, gw), K - 1))))
-        c.inv("ka_gap_after_strobe", z3.Implies(B(fired), gap == zx(ka_t - bvc(K % (1 << tw), tw), gw)))
-        c.ensure("keepalive_never_later_than_10ms", z3.ULT(gap, TEN_MS),
-                 clause="(never later than 10 ms)")
-
-        # --- recovery
-        c.ensure("recovery_at_1ms", z3.Implies(quiet_rx == N - 1, recovery),
-                 clause="recovery is requested within one cycle of 1 ms without any received link command or header packet")
-        c.ensure("recovery_never_earlier", z3.Implies(recovery, z3.UGE(quiet_rx, N - 1)),
-                 clause="and never earlier")
-
-        # --- vacuity
-        c.cover("keepalive", keepalive, reach=reach or K <= 100)
-        c.cover("keepalive_repeats", z3.And(keepalive, B(fired)), reach=reach)
-        c.cover("recovery", z3.And(recovery, quiet_rx == N - 1), reach=deep)
-        c.cover("rx_event_restarts", z3.And(rx, enable, z3.UGT(quiet_rx, 2)))
-        c.cover("tx_event_restarts", z3.And(tx, enable, z3.UGT(quiet_tx, 2)))
-        if deep:
-            c.cover_depth = N + 8
-            c.timeout_s = 900
+# ===================================================================================== wiring (caller-side obligations)
+def link_layer_timers(freq):
+    """The LinkMaintenanceTimers and IdleHandshakeHandler instances inside the real USB3LinkLayer(ss_clock_frequency=freq): clauses (2)
+    and (3) are re-proved end to end with the events taken where they happen in the link layer - U0 = the LTSSM's link_ready, "a link
+    command is sent" = the LinkCommandGenerator (inside HeaderPacketReceiver) has a word on its stream, "a link command or header
+    packet is received" = the LinkCommandDetector's (inside PacketTransmitter) new_command or the RawHeaderPacketReceiver's new_packet,
+    keepalive = what the header receiver is asked to send, recovery = what the LTSSM is triggered with - so they also decide the
+    instance's clock parameter and every connection on the way."""
+    def contract(c):
+        from .c37_header_receive import LinkLayerUnits, lemmas_receive_stream
+        U = LinkLayerUnits(c, freq)
+        of, S, ts, tm, ltssm, idle = U.of, U.S, U.ts, U.tm, U.ltssm, U.idle
+        enable = B(of(ltssm.link_ready))
+        tx = B(of(U.gen.source.valid))
+        rx = z3.Or(B(of(U.det.new_command)), B(of(U.raw.new_packet)))
+        keepalive = B(of(U.hrx.keepalive_required))
+        recovery = B(of(tm.transition_to_recovery))
+        timer_clauses(c, freq, enable, tx, rx, keepalive, recovery, ts.sig("timers.keepalive_timer"), ts.sig("timers.recovery_timer"), None, False)
+        c.lemma("timer_inputs_are_the_link_layer_events",
+                z3.And(S(tm.enable, ltssm.link_ready), S(tm.link_command_transmitted, U.gen.source.valid),
+                       S(tm.link_command_received, U.det.new_command), S(tm.packet_received, U.raw.new_packet)),
+                clause="U0 = link_ready; sent link command = link command generator stream valid; received = detector new_command / raw "
+                       "header receiver new_packet")
+        c.lemma("keepalive_request_reaches_the_header_receiver", S(U.hrx.keepalive_required, tm.schedule_keepalive),
+                clause="a keepalive is scheduled: the strobe is the header receiver's keepalive_required")
+        c.lemma("recovery_request_reaches_the_ltssm",
+                of(ltssm.trigger_link_recovery) == (of(tm.transition_to_recovery) | of(U.hrx.recovery_required) | of(U.ptx.recovery_required)),
+                clause="recovery is requested: transition_to_recovery triggers the LTSSM's link recovery (together with the receiver's and "
+                       "transmitter's own requests)")
+        # clause (1): the idle handshake handler instance
+        lemmas_receive_stream(c, U, [("idle_handshake_handler", idle.sink), ("link_command_detector", U.det.sink), ("raw_header_receiver", U.raw.sink)],
+                              clause="eight consecutive valid logical-idle symbols were received / received link command or header packet: the "
+                                     "handler, the detector and the header receiver look at the physical layer's receive stream")
+        c.lemma("idle_handshake_is_driven_by_and_reported_to_the_ltssm",
+                z3.And(S(idle.enable, ltssm.perform_idle_handshake), S(ltssm.idle_handshake_complete, idle.idle_handshake_complete)),
+                clause="since it started / completes: enable = LTSSM perform_idle_handshake, completion is reported to the LTSSM")
     return contract
 
 
@@ -188,6 +237,8 @@ def contracts(tier):
     yield ("IdleHandshakeHandler", "", idle_contract)
     yield ("LinkMaintenanceTimers", "125MHz", timers_contract(125e6, False))
     yield ("LinkMaintenanceTimers", "scaled_200kHz", timers_contract(200e3, True))
+    yield ("USB3LinkLayer", "wiring_timers_125MHz", link_layer_timers(125e6))
+    yield ("USB3LinkLayer", "wiring_timers_100MHz", link_layer_timers(100e6))
     if tier == "thorough":
         yield ("LinkMaintenanceTimers", "scaled_200kHz_deep_cover", timers_contract(200e3, True, deep=True))
         yield ("LinkMaintenanceTimers", "250MHz", timers_contract(250e6, False))
